@@ -29,13 +29,13 @@ import (
 func init() {
 	Registry["C20"] = &Prop{
 		Plan: func(tier string) Plan {
-			return Plan{Level: "exploration", NCases: pick(tier, 48, 2000), Batch: 3, CaseTimeout: 240,
+			return Plan{Level: "exploration", NCases: pick(tier, 120, 3000), Batch: 3, CaseTimeout: 240,
 				Rule: "one case = a node wired as cmd/option.Run wires it (REAL Prometheus client with the cluster label, storage metrics wrapper, backend, etcd and native servers) receiving 80 generated requests: request structs of etcd Txn/Range/Watch/Lease and native Create/Update/Delete/Get/Range/Count/ListPartition/RangeStream/Compact/Watch are filled with PRNG values biased to hostile ones (keys of arbitrary bytes incl. invalid UTF-8, empty, containing '$' and the internal magic prefix; revisions 0, +-1, MinInt64, MaxInt64, 1888, far future; negative and huge limits; missing sub-messages; unsupported shapes), marshalled and unmarshalled (so exactly the protobuf-decodable ones) and written to disk before being sent. " +
 					"oracle: the call returns within a watchdog; no panic (recovered in the calling goroutine, process death otherwise, the last logged request being the witness); a recording metrics decorator never sees one metric name with two label-name sets or kinds; after every request a probe create + Range(rev=0) + a pre-opened watcher see the new key, and the notify-deposit conservation monitor (C04) gives the wedge verdict without a timeout. " +
 					"non-trivial = case that sent >=10 distinct request types incl. >=1 watch on a non-UTF-8 prefix, >=1 negative revision and >=1 unsupported txn; distinct by request digest",
-				Assumptions: []string{"handlers are called in-process with protobuf-round-tripped requests (no network transport)", "the election is a stub reporting 'leader'; leader.election.* and TLS call sites are not reachable",
+				Assumptions: []string{"3 of 4 cases call the handlers in-process with protobuf-round-tripped requests, every 4th goes through a real loopback gRPC connection with the metrics client's server options", "the election is a stub reporting 'leader'; leader.election.* and TLS call sites are not reachable",
 					"metric call sites reached are listed in evidence; unreached ones are not claimed"},
-				MinConcl: pick(tier, 36, 1700)}
+				MinConcl: pick(tier, 90, 2500)}
 		},
 		Name: func(c *harness.Case) string { return "fuzz-" + []string{"memkv", "badger", "tikv"}[c.Index%3] },
 		Run:  runC20,
@@ -143,8 +143,23 @@ func runC20(c *harness.Case) {
 	n := harness.NewNode(harness.NodeOpts{KV: kv, Metrics: rm, TrackNotify: true, Config: backend.Config{EnableEtcdCompatibility: c.Index%2 == 0, WatchCacheSize: 2048}})
 	defer n.Retire()
 	peers := harness.NewPeers(true)
-	es := etcd.New(n.B, rm, peers)
-	bs := brain.New(n.B, rm, peers)
+	esReal := etcd.New(n.B, rm, peers)
+	bsReal := brain.New(n.B, rm, peers)
+	var es etcdAPI = esReal
+	var bs brainAPI = bsReal
+	transport := "in-process"
+	if c.Index%4 == 3 {
+		// every 4th case goes through a real gRPC connection with the production interceptors: real protobuf
+		// decoding on the server side, and a handler panic is then a process crash (witness: the last logged request)
+		g, gerr := newGRPCNode(esReal, bsReal, rm)
+		if gerr != nil {
+			c.Inconclusive("grpc: " + gerr.Error())
+			return
+		}
+		defer g.close()
+		es, bs, transport = g.etcdGRPC, g.brainGRPC, "grpc"
+	}
+	c.AddSet("transports", transport)
 	// pre-opened watcher for the probe
 	probeCh, werr := n.B.Watch(harness.Ctx, harness.Prefix+"/zz-probe/", 0)
 	if werr != nil {
